@@ -110,6 +110,7 @@ type LoopAnn struct {
 	HasModifies bool
 	Line        int
 	matched     bool
+	inHelper    bool // matched a loop of a contract-less helper expanded in place
 }
 
 type CallAnn struct {
@@ -160,6 +161,7 @@ type FuncContract struct {
 	Loops       []*LoopAnn
 	Calls       []*CallAnn
 	Flags       map[string]bool
+	Locals      []LocalEntry        // the function's named locals when the contract was written (declaration order): survives renames
 	Verified    bool                // contract on a dependency function that is verified, not assumed
 	UsesHide    map[string][]string // postcondition label -> opaque predicates kept opaque while proving it
 	Uses        map[string][]string // postcondition label -> labels of postconditions assumed while proving it
@@ -177,6 +179,12 @@ func (f *FuncContract) Key() string {
 		return f.PkgName + "." + f.Recv + "." + f.Name
 	}
 	return f.PkgName + "." + f.Name
+}
+
+// LocalEntry: one named local variable of a function (name and type as written by types.TypeString).
+type LocalEntry struct {
+	Name string
+	Type string
 }
 
 type GhostDecl struct {
@@ -693,7 +701,7 @@ func parseExprString(s string) (e Expr, err error) {
 
 var topKeywords = map[string]bool{"opaque": true, "deterministic": true, "func": true, "ghost": true, "ufunc": true, "pure": true, "pred": true, "axiom": true, "lemma": true, "type": true, "extern": true, "tag": true, "verified": true, "writers": true, "confined": true}
 var clauseKeywords = map[string]bool{"unfold": true, "fold": true, "owns": true, "reveal": true, "cases": true, "dispatch": true, "requires": true, "ensures": true, "modifies": true, "serves": true, "loop": true, "invariant": true,
-	"at": true, "after": true, "assert": true, "assume": true, "flag": true, "set": true, "uses": true}
+	"at": true, "after": true, "assert": true, "assume": true, "flag": true, "set": true, "uses": true, "locals": true}
 
 type rawLine struct {
 	text string
@@ -1162,6 +1170,14 @@ func readSpecFile(path string, isSpec bool) (*SpecFile, error) {
 					cur.Uses = map[string][]string{}
 				}
 				cur.Uses[f[k+1]] = append(cur.Uses[f[k+1]], f[:k]...)
+			case "locals":
+				// locals name:type | name:type | ...   (generated by `govc locals`)
+				for _, ent := range strings.Split(rest, " | ") {
+					ent = strings.TrimSpace(ent)
+					if i := strings.Index(ent, ":"); i > 0 {
+						cur.Locals = append(cur.Locals, LocalEntry{Name: ent[:i], Type: ent[i+1:]})
+					}
+				}
 			case "flag":
 				if cur.Flags == nil {
 					cur.Flags = map[string]bool{}
